@@ -25,10 +25,18 @@ groups and aliases, attributes, `pub unsafe extern "C" fn`), raw-pointer types, 
                               the byte views are `let`-bound before it, so no view is ever read after memory changed
   &e, e.as_slice(), e[..], (e)   the identity on bytes;  `let x = e;` for any of the above;  integer literals
   <fn>_pre                    the conjunction of the side conditions, over the same `let`s as the function
+  helper(a, b, …)             a call of a PRIVATE function of lib.rs (`[unsafe] fn h[<'a, …>](x: T, …) -> R { e }`: not `pub`, not
+                              `extern`, no attribute other than #[inline] / #[allow] / #[must_use] / #[doc] -- so it adds nothing to
+                              the exported symbols; T a pointer, an integer type or `&[u8]`; R `&[u8]`, `&mut [u8]` or an integer
+                              type; the body one expression of this table) is replaced by `e` with the parameters replaced, BY
+                              POSITION, by the arguments (all expressions of this table are free of effects; an argument that is
+                              not a variable or a literal must be used exactly once).  The helper is found by resolving the called
+                              path to the item, its name plays no role; the arguments are checked against the declared parameter
+                              types and the body against the declared return type, as rustc would; no recursion
 
 Everything else (a loop, `if`, arithmetic or a cast on a pointer or a length, a sub-range, a second write, a statement after the
 write, a write through a `from_raw_parts` slice, `from_raw_parts_mut` of a `*const`, a call of any other function, a return
-value, `let x: T`) is refused with exit 3.  The header is read with a small C-prototype reader (comments and `#` lines dropped;
+value of an exported function, an exported or `pub` or generic (other than lifetimes) helper, `let x: T`) is refused with exit 3.  The header is read with a small C-prototype reader (comments and `#` lines dropped;
 `type name` parameters of the four types below); every exported Rust function must have exactly one prototype and vice versa.
 
   *const c_uchar <-> const unsigned char*      *mut c_uchar <-> unsigned char*      size_t <-> size_t      c_uint <-> unsigned int
@@ -97,14 +105,26 @@ class FParser(B.Parser):
         if alias in uses and uses[alias] != path: raise Unsupported(f'two `use` declarations of `{alias}`', line)
         uses[alias] = path
 
+    HELPER_ATTRS = {'inline', 'allow', 'must_use', 'doc'}
+
     def parse_file(self):
         uses, fns, attrs = {}, [], []
+        self.helpers = []           # private, non-exported functions (inlined at their call sites)
+        heads = []                  # first word of each pending attribute
         while self.peek().kind != 'eof':
             tok = self.peek()
             if self.at('#'):
-                attrs += self.attribute(); continue
+                words = self.attribute(); attrs += words; heads.append(words[0] if words else ''); continue
             if self.at('use'):
-                self.next(); self.use_tree([], uses, tok.line); self.expect(';'); attrs = []; continue
+                self.next(); self.use_tree([], uses, tok.line); self.expect(';'); attrs = []; heads = []; continue
+            if self.at('fn') or (self.at('unsafe') and self.at('fn', 1)):
+                # a private function: it must not add to (or rename in) the exported symbols
+                for h in heads:
+                    if h not in self.HELPER_ATTRS:
+                        raise Unsupported(f'attribute `#[{h}…]` on a private function (only {", ".join("#[" + a + "]" for a in sorted(self.HELPER_ATTRS))}; '
+                                          f'an exported function must be `#[no_mangle] pub unsafe extern "C" fn`)', tok.line)
+                self.accept('unsafe')
+                self.helpers.append(self.parse_helper_fn()); attrs = []; heads = []; continue
             if self.at('pub') and self.at('unsafe', 1) and self.at('extern', 2):
                 self.next(); self.next(); self.next()
                 abi = self.next()
@@ -112,9 +132,9 @@ class FParser(B.Parser):
                 fn = self.parse_fn()
                 if 'no_mangle' not in attrs:
                     raise Unsupported(f'`{fn.name}` is `extern "C"` but has no `#[no_mangle]` (not exported under its name)', fn.line)
-                fns.append(fn); attrs = []; continue
-            raise Unsupported(f'item starting with `{tok.text}` (only `use` and `#[no_mangle] pub unsafe extern "C" fn` items are supported)',
-                              tok.line)
+                fns.append(fn); attrs = []; heads = []; continue
+            raise Unsupported(f'item starting with `{tok.text}` (only `use`, `#[no_mangle] pub unsafe extern "C" fn` and private '
+                              f'`[unsafe] fn` items are supported)', tok.line)
         return uses, fns
 
     def parse_type(self):
@@ -132,6 +152,44 @@ class FParser(B.Parser):
             path.append(self.ident().text)
         if self.at('<'): raise Unsupported('generic type', tok.line)
         return ('path', path, tok.line)
+
+    def parse_helper_type(self):
+        """a parameter / return type of a private function: as parse_type, and `&['a] [mut] [T]`"""
+        tok = self.peek()
+        if not self.accept('&'): return self.parse_type()
+        if self.peek().kind == 'lifetime': self.next()
+        mut = bool(self.accept('mut'))
+        if not self.accept('['): raise Unsupported('reference type other than `&[T]` / `&mut [T]`', tok.line)
+        inner = self.parse_type()
+        if inner[0] != 'path': raise Unsupported('slice of pointers', tok.line)
+        self.expect(']')
+        return ('slice', mut, inner[1], tok.line)
+
+    def parse_helper_fn(self):
+        """`fn name[<'a, …>](x: T, …) -> R { … }` (the `unsafe` is already consumed)"""
+        line = self.expect('fn').line
+        name = self.ident().text
+        self.fn = name
+        if self.accept('<'):
+            while not self.accept('>'):
+                tok = self.next()
+                if tok.kind != 'lifetime': raise Unsupported('generic parameters other than lifetimes', tok.line)
+                if self.at(':'): raise Unsupported('lifetime bound', tok.line)
+                if not self.at('>'): self.expect(',')
+        self.expect('(')
+        params = []
+        while not self.accept(')'):
+            if self.accept('mut'): raise Unsupported('`mut` parameter binding', line)
+            pn = self.ident()
+            self.expect(':')
+            params.append((pn.text, self.parse_helper_type(), pn.line))
+            if not self.at(')'): self.expect(',')
+        if not self.accept('->'): raise Unsupported('a private function without a return value', line)
+        ret = self.parse_helper_type()
+        if self.at('where'): raise Unsupported('`where` clause', line)
+        body = self.parse_block()
+        self.fn = None
+        return Node('fn', line, name=name, params=params, ret=ret, body=body)
 
     def parse_fn(self):
         line = self.expect('fn').line
@@ -162,14 +220,79 @@ def full_path(path, uses):
 
 def rust_type_text(t):
     if t[0] == 'ptr': return ('*mut ' if t[1] else '*const ') + '::'.join(t[2])
+    if t[0] == 'slice': return ('&mut [' if t[1] else '&[') + '::'.join(t[2]) + ']'
     return '::'.join(t[1])
+
+
+# ------------------------------------------------------------------------------------------------ private helper functions
+
+def subst(e, mapping):
+    """a copy of the expression `e` with every one-segment path named in `mapping` replaced by the mapped expression (the callee
+    of a call is a path in the function namespace and is left alone)"""
+    if e.kind == 'path':
+        return mapping[e.path[0]] if len(e.path) == 1 and e.path[0] in mapping else e
+    new = Node(e.kind, e.line)
+    for k, v in vars(e).items():
+        if k in ('kind', 'line'): continue
+        if isinstance(v, Node): v = v if (e.kind == 'call' and k == 'f' and v.kind == 'path') else subst(v, mapping)
+        elif isinstance(v, list): v = [subst(x, mapping) if isinstance(x, Node) else x for x in v]
+        setattr(new, k, v)
+    return new
+
+
+def occurrences(e, name):
+    if e.kind == 'path': return int(e.path == [name])
+    n = 0
+    for k, v in vars(e).items():
+        if isinstance(v, Node) and not (e.kind == 'call' and k == 'f' and v.kind == 'path'): n += occurrences(v, name)
+        elif isinstance(v, list): n += sum(occurrences(x, name) for x in v if isinstance(x, Node))
+    return n
+
+
+def show(e):
+    """Rust text of an expression, for the comments of the generated file"""
+    if e.kind == 'paren': return f'({show(e.e)})'
+    if e.kind == 'lit': return str(e.val) + (e.suffix or '')
+    if e.kind == 'path': return '::'.join(e.path)
+    if e.kind == 'ref': return ('&mut ' if e.mut else '&') + show(e.e)
+    if e.kind == 'call': return f'{show(e.f)}({", ".join(show(a) for a in e.args)})'
+    if e.kind == 'mcall': return f'{show(e.recv)}.{e.name}({", ".join(show(a) for a in e.args)})'
+    if e.kind == 'index' and e.ix.kind == 'range' and e.ix.lo is None and e.ix.hi is None: return f'{show(e.e)}[..]'
+    return '…'
+
+
+class Helpers:
+    """the private functions of lib.rs; each is checked on its own (parameters as the only variables, the body against the
+    declared return type) the first time it is needed, nested helper calls already replaced"""
+
+    def __init__(self, fns, uses, src_lines):
+        self.uses, self.src = uses, src_lines
+        self.fns, self.done, self.active = {}, {}, []
+        for fn in fns:
+            if fn.name in self.fns: raise Unsupported(f'two functions named `{fn.name}`', fn.line)
+            if fn.name in uses: raise Unsupported(f'`{fn.name}` is both a function of this file and a `use` declaration', fn.line)
+            self.fns[fn.name] = fn
+
+    def get(self, name, line):
+        if name in self.done: return self.done[name]
+        if name in self.active: raise Unsupported(f'recursive private function `{name}`', line)
+        self.active.append(name)
+        try:
+            rec = FnTranslator(self.fns[name], self.uses, self.src, self).check_helper()
+        except Unsupported as u:
+            if not getattr(u, 'fn', None): u.fn = name
+            raise
+        self.active.pop()
+        self.done[name] = rec
+        return rec
 
 
 # ------------------------------------------------------------------------------------------------ body
 
 class FnTranslator:
-    def __init__(self, fn, uses, src_lines):
+    def __init__(self, fn, uses, src_lines, helpers=None):
         self.fn, self.uses, self.src = fn, uses, src_lines
+        self.helpers = helpers
         self.env = {}          # Rust name -> ('ptr', mut) | ('int', rust int type) | ('bytes',) | ('region',)
         self.out, self.pre_out, self.conds = [], [], []
         self.written = None    # line of the write
@@ -186,6 +309,10 @@ class FnTranslator:
             if full_path(ty[2], self.uses) not in UCHAR: self.bad(f'pointer type `{rust_type_text(ty)}` (only pointers to c_uchar / u8)', line)
             self.env[name] = ('ptr', ty[1])
             ct = 'ucharPtr' if ty[1] else 'constUCharPtr'
+        elif ty[0] == 'slice':                                 # private functions only (FParser.parse_helper_type)
+            if ty[1] or full_path(ty[2], self.uses) not in UCHAR: self.bad(f'parameter type `{rust_type_text(ty)}` (of slices only `&[u8]`)', line)
+            self.env[name] = ('bytes',)
+            ct = None
         else:
             fp = full_path(ty[1], self.uses)
             if fp not in INT_TYPES: self.bad(f'parameter type `{rust_type_text(ty)}` (resolved: {"::".join(fp)})', line)
@@ -293,7 +420,109 @@ class FnTranslator:
         self.kind_of(e)
         self.bad('this expression where a byte slice is expected', e.line)
 
+    def region_parts(self, e, line):
+        """(offset, length) of an expression of kind 'region': a call of from_raw_parts_mut"""
+        while e.kind == 'paren': e = e.e
+        if e.kind != 'call': self.bad('a second name for a writable region', line)
+        if len(e.args) != 2: self.bad('from_raw_parts_mut takes two arguments', e.line)
+        p = self.ptr_arg(e.args[0], True, 'from_raw_parts_mut')
+        n, _ = self.int_expr(e.args[1], 'usize')
+        self.cond(f'{p} + {n} ≤ mem.length', e.line, f'from_raw_parts_mut: [{p}, {p} + {n}) lies inside memory')
+        return p, n
+
+    # ---- private helper functions: calls are replaced by the body
+    def helper_name(self, path):
+        """the private function of this file a called path names, or None"""
+        if self.helpers is None: return None
+        if len(path) == 2 and path[0] in ('self', 'crate'): path = path[1:]
+        if len(path) == 1 and path[0] in self.helpers.fns and path[0] not in self.env: return path[0]
+        return None
+
+    def norm(self, e):
+        """the expression with every call of a private function replaced by the body of the function, the parameters replaced
+        by the arguments of the call (innermost calls first); `e` itself when it contains no such call"""
+        changed = {}
+        for k, v in vars(e).items():
+            if isinstance(v, Node):
+                nv = self.norm(v)
+                if nv is not v: changed[k] = nv
+            elif isinstance(v, list) and any(isinstance(x, Node) for x in v):
+                nl = [self.norm(x) if isinstance(x, Node) else x for x in v]
+                if any(a is not b for a, b in zip(nl, v)): changed[k] = nl
+        if changed:
+            new = Node(e.kind, e.line)
+            new.__dict__.update(vars(e)); new.__dict__.update(changed)
+            e = new
+        if e.kind == 'call' and e.f.kind == 'path':
+            name = self.helper_name(e.f.path)
+            if name is not None: return self.inline(name, e)
+        return e
+
+    def dry(self, f):
+        """run `f` for its checks only"""
+        saved = len(self.out), len(self.pre_out), len(self.conds)
+        try:
+            return f()
+        finally:
+            del self.out[saved[0]:], self.pre_out[saved[1]:], self.conds[saved[2]:]
+
+    def inline(self, name, e):
+        h = self.helpers.get(name, e.line)
+        if len(e.args) != len(h['params']): self.bad(f'`{name}` (line {h["line"]}) takes {len(h["params"])} arguments', e.line)
+        mapping = {}
+        for (pn, pk), a in zip(h['params'], e.args):
+            what = f'argument `{show(a)}` for the parameter `{pn}` of `{name}` (line {h["line"]})'
+            atom = a
+            while atom.kind == 'paren': atom = atom.e
+            if pk[0] == 'ptr':
+                if atom.kind != 'path' or len(atom.path) != 1 or self.env.get(atom.path[0], ('',))[0] != 'ptr':
+                    self.dry(lambda: self.kind_of(a))
+                    self.bad(f'{what}: a pointer argument must be a pointer parameter, as it stands', a.line)
+                if pk[1] and not self.env[atom.path[0]][1]: self.bad(f'{what}: a `*const` pointer where `*mut` is declared', a.line)
+            elif pk[0] == 'int':
+                if self.dry(lambda: self.kind_of(a)) != 'int': self.bad(f'{what}: not a number', a.line)
+                self.dry(lambda: self.int_expr(a, pk[1]))
+            else:
+                if self.dry(lambda: self.kind_of(a)) != 'bytes': self.bad(f'{what}: not a `&[u8]`', a.line)
+            if atom.kind not in ('path', 'lit') and h['uses'][pn] != 1:
+                self.bad(f'{what}: the parameter is used {h["uses"][pn]} times in the body (an argument that is not a variable or a '
+                         f'literal must be used exactly once)', a.line)
+            mapping[pn] = atom if atom.kind in ('path', 'lit') else Node('paren', a.line, e=a)
+        names = ', '.join(pn for pn, _ in h['params'])
+        self.note(f'`{name}` (private fn, line {h["line"]}) replaced by its body `{show(h["body"])}` with ({names}) := '
+                  f'({", ".join(show(a) for a in e.args)})')
+        return subst(h['body'], mapping)
+
+    def check_helper(self):
+        """this function as a private helper: {'line', 'params': [(name, kind)], 'uses': {name: occurrences}, 'kind', 'body'}"""
+        fn = self.fn
+        for name, ty, line in fn.params: self.param(name, ty, line)
+        if fn.body.stmts: self.bad('a statement in a private function (only a single expression is supported)', fn.body.stmts[0].line)
+        if fn.body.tail is None: self.bad('a private function without a final expression', fn.body.line)
+        body = self.norm(fn.body.tail)
+        k = self.kind_of(body)
+        ret = fn.ret
+        if ret[0] == 'ptr': self.bad('a private function that returns a pointer', fn.line)
+        if ret[0] == 'slice':
+            if full_path(ret[2], self.uses) not in UCHAR: self.bad(f'return type `{rust_type_text(ret)}` (of slices only `&[u8]` / `&mut [u8]`)', fn.line)
+            want = 'region' if ret[1] else 'bytes'
+        else:
+            fp = full_path(ret[1], self.uses)
+            if fp not in INT_TYPES: self.bad(f'return type `{rust_type_text(ret)}` (resolved: {"::".join(fp)})', fn.line)
+            want = 'int'
+        if k != want:
+            self.bad(f'the body is a {k} expression, the declared return type `{rust_type_text(ret)}` is a {want} type', body.line)
+        if k == 'bytes': self.bytes_expr(body)
+        elif k == 'int': self.int_expr(body, INT_TYPES[fp][1])
+        else: self.region_parts(body, body.line)
+        return {'line': fn.line, 'params': [(n, self.env[n]) for n, _, _ in fn.params], 'kind': k, 'body': body,
+                'uses': {n: occurrences(body, n) for n, _, _ in fn.params}}
+
     # ---- statements
+    def note(self, text):
+        text = f'  --     {text}'
+        self.out.append(text); self.pre_out.append(text)
+
     def cond(self, text, line, why):
         k = len(self.conds) + 1
         self.conds.append(f"h'{k}")
@@ -313,19 +542,20 @@ class FnTranslator:
             self.bad(f'a statement after the write of line {self.written} (at most one write, as the last statement, is supported)', s.line)
         if s.kind == 'for': self.bad('a loop', s.line)
         self.comment(s.line)
+        if self.helpers is not None and self.helpers.fns and s.kind in ('let', 'expr'):
+            attr = 'init' if s.kind == 'let' else 'e'
+            ne = self.norm(getattr(s, attr))
+            if ne is not getattr(s, attr):
+                new = Node(s.kind, s.line)
+                new.__dict__.update(vars(s)); setattr(new, attr, ne)
+                s = new
         if s.kind == 'let':
             if s.ty is not None: self.bad('`let` with a type annotation', s.line)
             if s.name in RESERVED: self.bad(f'a local named `{s.name}` (the name of the memory in the generated code)', s.line)
             k = self.kind_of(s.init)
             if k == 'ptr': self.bad('a copy of a pointer', s.line)
             if k == 'region':
-                e = s.init
-                while e.kind == 'paren': e = e.e
-                if e.kind != 'call': self.bad('a second name for a writable region', s.line)
-                if len(e.args) != 2: self.bad('from_raw_parts_mut takes two arguments', e.line)
-                p = self.ptr_arg(e.args[0], True, 'from_raw_parts_mut')
-                n, _ = self.int_expr(e.args[1], 'usize')
-                self.cond(f'{p} + {n} ≤ mem.length', e.line, f'from_raw_parts_mut: [{p}, {p} + {n}) lies inside memory')
+                p, n = self.region_parts(s.init, s.line)
                 self.emit(f'let {lname(s.name)} : RsMem.Region := {{ off := {p}, len := {n} }}')
                 self.env[s.name] = ('region',)
             elif k == 'int':
@@ -456,14 +686,21 @@ def translate(src_text, hdr_text):
         raise
     if not fns: raise Unsupported('no `pub unsafe extern "C" fn` in lib.rs', 1)
     protos = parse_header(hdr_text)
+    helpers = Helpers(p.helpers, uses, src_lines)
     chunks, seen = [], set()
+    for h in p.helpers:                     # every private function is checked, called or not
+        helpers.get(h.name, h.line)
+        sig = ' '.join(x.strip() for x in src_lines[h.line - 1:h.body.line]).rstrip('{').strip()
+        chunks.append(f'/- `{sig}` (lib.rs line {h.line}): private (not `pub`, not `extern`, not `#[no_mangle]`), so not among the exported\n'
+                      f'   symbols; every call is replaced by the body `{show(helpers.done[h.name]["body"])}`, the parameters replaced by the arguments -/')
     for fn in fns:
-        if fn.name in seen: raise Unsupported(f'two functions named `{fn.name}`', fn.line)
+        if fn.name in seen or fn.name in helpers.fns: raise Unsupported(f'two functions named `{fn.name}`', fn.line)
         seen.add(fn.name)
         try:
-            chunks += FnTranslator(fn, uses, src_lines).run()
+            chunks += FnTranslator(fn, uses, src_lines, helpers).run()
         except Unsupported as u:
-            u.fn = fn.name; raise
+            if not getattr(u, 'fn', None): u.fn = fn.name
+            raise
         if fn.name not in protos:
             raise Unsupported(f'kestrel-crypto.h has no prototype of the exported function `{fn.name}`', fn.line)
         hline, hparams = protos[fn.name]
@@ -472,6 +709,8 @@ def translate(src_text, hdr_text):
     for name, (hline, _) in protos.items():
         if name not in seen: raise Unsupported(f'kestrel-crypto.h declares `{name}`, which lib.rs does not export', hline)
     names = ', '.join(f'`{fn.name}`' for fn in fns)
+    inlined = '' if not p.helpers else (f"\n  Calls of the private functions of lib.rs ({', '.join(f'`{h.name}`' for h in p.helpers)}) are replaced by the body of the "
+                                        f"function, its\n  parameters replaced, by position, by the arguments of the call (noted at each call).")
     header = f'''/-
   GENERATED by tools/rs2lean_ffi.py -- do not edit.
   source : src/ffi/src/lib.rs  (the part before `#[cfg(test)]`, {len(region.encode())} bytes, {region.count(chr(10))} lines)
@@ -484,7 +723,7 @@ def translate(src_text, hdr_text):
   `region.copy_from_slice(v)` is `RsMem.copyFromSlice` (memory with `v` spliced in), `kestrel_crypto::scrypt` (found through the
   `use` declarations) is `RsMem.kc_scrypt` (RFC 7914).  Each function returns the new memory.  `<fn>_pre` collects the side
   conditions (ranges inside memory; no panic in copy_from_slice).  `<fn>_params` / `<fn>_header_params` are the parameter
-  lists of lib.rs and of the C header.  Glue: KestrelModel/RsMem.lean.
+  lists of lib.rs and of the C header.  Glue: KestrelModel/RsMem.lean.{inlined}
 -/
 import KestrelModel.RsMem
 set_option linter.unusedVariables false
